@@ -209,6 +209,19 @@ def decide(pid, tier, seed, mod, targets, results, opts, t_start):
             degraded.append(o)
         else:
             undecided.append(o)
+    # Clauses tagged with another property that are not discharged in one of this property's targets: this property's proofs
+    # assume those clauses wherever the function is called, so they cannot be trusted while one is open.  (A clause that is a
+    # listed known finding of its own property is that property's business and is not counted here.)
+    seen_foreign = set()
+    for o in obs:
+        if o["property"] == pid or o["status"] == "discharged" or o["backend"].startswith("bounded") or o["id"] in seen_foreign:
+            continue
+        if o["status"] == "refuted" and match_known(o, findings) is not None:
+            continue
+        seen_foreign.add(o["id"])
+        o = dict(o)
+        o["detail"] = (f"a clause of property {o['property']} that this property's proofs rely on is {o['status']} here; " + (o.get("detail") or ""))[:300]
+        undecided.append(o)
     code = 0
     seen_kf = set()
     for o, kf in known_hit:
